@@ -239,6 +239,8 @@ func (p *Path) intrinsic(fn *ssa.Function, args []Value) (Value, bool) {
 		}
 		p.assume(c)
 		return nil, true
+	case "verifContains":
+		return mkContains(args[0].(*Term), args[1].(*Term)), true
 	case "verifMemberOf":
 		words, ok := stringSliceConsts(args[1])
 		if !ok {
@@ -340,6 +342,8 @@ func (p *Path) specIntrinsic(n string, args []Value) (Value, bool) {
 			return mkBig(intLitValue(lit.S)), true
 		}
 		return mkUF("intlitval", SInt, lit), true
+	case "specQuote":
+		return goquote(args[0].(*Term)), true
 	case "specGofmt":
 		return gofmtOf(args[0].(*Term)), true
 	case "specGofmtOK":
